@@ -45,7 +45,7 @@ def scenario(draw):
                 ops.append(['multi', [[f'm{t}{n}{j}', draw(st.booleans()) if kind == 'string' else True, draw(st.sampled_from([0, 0.25, 0.5]))]
                                       for j in range(draw(st.integers(0, 3)))]])
             elif what == 'sleep':
-                ops.append(['sleep', draw(st.sampled_from([0.5, 3.0, 11.0, 25.0]))])
+                ops.append(['sleep', draw(st.sampled_from([0.5, 3.0, 10.0, 11.0, 25.0]))])     # (10.0: exactly one poll interval)
             elif what == 'write' and kind == 'string':
                 ops.append(['write', f'w{t}{n}'])
             else:
@@ -55,7 +55,7 @@ def scenario(draw):
     for _ in range(draw(st.integers(0, 4))):
         faults[str(draw(st.integers(0, 10)))] = draw(st.sampled_from(['garbage', 'garbage-joined', 'late', 'silent', 'close-before', 'close-inside', 'close-after', 'chunk1', 'chunk3']))
     return {'kind': 'scenario', 'io': kind, 'callers': callers, 'faults': faults, 'refuse': draw(st.sampled_from([0, 0, 1, 3])),
-            'banner': draw(st.booleans()), 'eol': draw(st.sampled_from(['\n', '\n', '\r\n'])), 'poller': draw(st.sampled_from(['model', 'real'])), 'schedule': draw(st.lists(st.integers(0, 4), min_size=10, max_size=200))}
+            'banner': draw(st.booleans()), 'eol': draw(st.sampled_from(['\n', '\n', '\r\n'])), 'ident': draw(st.integers(0, 2)) == 0, 'connect_delay': draw(st.sampled_from([0, 0, 0.05])), 'poller': draw(st.sampled_from(['model', 'real'])), 'schedule': draw(st.lists(st.integers(0, 4), min_size=10, max_size=200))}
 
 
 class Device:
@@ -95,6 +95,10 @@ class Device:
 
     def command(self, cmd):
         w = self.world
+        if cmd == b'*IDN?' and w.case.get('ident'):
+            w.idents.append(dsched.v_time())      # the identification exchange after (re)connecting: never faulted
+            self.sock.push(b'ACME,device' + w.eol)
+            return
         idx = len(w.commands)
         w.commands.append((dsched.v_time(), cmd))
         if w.case['io'] == 'string' and cmd.startswith(b'w'):
@@ -147,6 +151,7 @@ class World:
         self.case = case
         self.eol = case.get('eol', '\n').encode()     # line terminator of the device (both directions)
         self.commands = []
+        self.idents = []
         self.bytelog = []
         self.disconnects = []
         self.refuse_left = 0
@@ -175,14 +180,15 @@ def encode(case, cmd):
     return (cmd.encode() + b'....')[:4]
 
 
-def run(case):
+def run(case, preempt=None):
     import frappy.io as fio
     import frappy.lib.asynconn as ac
     from frappy.lib import generalConfig
     ac.AsynConn.__del__ = lambda self: None
     world = World(case)
     net = fakenet.FakeNet(world.factory)
-    s = dsched.Sched(case.get('schedule', ()), horizon=600, step_limit=80000)
+    net.connect_delay = case.get('connect_delay', 0)
+    s = dsched.Sched(case.get("schedule", ()), preempt=preempt, horizon=600, step_limit=80000)
     out = {'sched': s, 'world': world, 'net': net, 'results': [], 'error': None, 'callbacks': {'a': 0, 'b': 0}, 'state': []}
 
     def main():
@@ -203,6 +209,8 @@ def run(case):
                   'wait_before': {'value': WAIT_BEFORE}, 'pollinterval': {'value': INTERVAL}}
         if case['io'] == 'string' and case.get('eol', '\n') != '\n':
             cfg_io['end_of_line'] = case['eol']
+        if case['io'] == 'string' and case.get('ident'):
+            cfg_io['identification'] = [('*IDN?', 'ACME.*')]     # checked by a communicate() inside every (re)connect
         io = cls('io', L(), dict(cfg_io), srv)
         io.earlyInit()
         out['io'] = io
@@ -315,7 +323,16 @@ def check(ctx, case):
     out = run(case)
     s, world = out['sched'], out['world']
     if out['error'] is not None:
-        ctx.finding(f'run:{type(out["error"]).__name__}', case, repr(out['error'])[:400])
+        import re
+        try:     # who waits for what, without thread numbers
+            items = out['error'].args[0]
+            shape = '|'.join(sorted({re.sub(r'\d+', '', f'{n.split(":")[-1]}>{str(w_).split(":")[-1]}') for n, w_ in items}))[:120]
+        except Exception:   # noqa
+            shape = 'unknown'
+        # the identification exchange of a reconnect (poll of is_connected: module access lock, then the i/o lock) against a caller
+        # (i/o lock, then read_is_connected: module access lock) is the known lock order inversion
+        inversion = case.get('ident') and case['io'] == 'string' and shape.count('DRLock') >= 2
+        ctx.finding(f'run:{type(out["error"]).__name__}:{"reconnect-with-identification-vs-caller" if inversion else shape}', case, repr(out['error'])[:400])
         return
     if out.get('connect_exc') is not None:
         ctx.finding(f'initial-connect-fails:{type(out["connect_exc"]).__name__}', case, repr(out['connect_exc'])[:300])
@@ -416,6 +433,9 @@ def check(ctx, case):
     ctx.ok('reconnect-rate')
     # (7) after a successful reconnect every registered callback ran exactly once; the connection heals
     nrec = max(0, len(world.accepted) - 1)
+    if case.get('ident') and case['io'] == 'string':
+        # a connection is established when the identification exchange went through (an accepted connection may be closed before)
+        nrec = max(0, len(world.idents) - 1)
     if world.disconnects and not out.get('connected_at_end'):
         ctx.finding('not-reconnected-at-the-end', case, f'disconnects {len(world.disconnects)}, accepted connections {len(world.accepted)}')
         return
@@ -429,7 +449,8 @@ def check(ctx, case):
     ctx.ok('self-healing')
     if case.get('poller') == 'real':
         # polling resumes: the framework's poll thread polls again right after every reconnect (not only at its next regular turn)
-        for k, t in enumerate(world.accepted[1:], 1):
+        established = world.idents if case.get('ident') and case['io'] == 'string' else world.accepted
+        for k, t in enumerate(established[1:], 1):
             if t + TIMEOUT + 1 < out.get('end_time', 0) and not any(t <= p <= t + TIMEOUT + 1 for p in out['polls']):
                 nxt = min([p for p in out['polls'] if p > t] or [float('inf')])
                 ctx.finding(f'polling-not-resumed-after-reconnect:{"first" if k == 1 else "later"}', case,
@@ -437,6 +458,8 @@ def check(ctx, case):
                 return
         ctx.ok('polling-resumed')
         ctx.label('poller:real')
+    if case.get('ident') and case['io'] == 'string':
+        ctx.label('identification-on-connect')
     ctx.label(f'io:{case["io"]}', f'eol:{case.get("eol", chr(10))!r}', f'disconnects:{len(world.disconnects)}', *[f'fault:{v}' for k, v in case['faults'].items() if int(k) < len(world.commands)])
     ctx.sample({'io': case['io'], 'callers': case['callers'], 'faults': case['faults'], 'device_log': [(round(t - s.t0, 2), c.decode('latin-1')) for t, c in world.commands][:12]}, every=97)
 
